@@ -312,6 +312,37 @@ def run(ctx):
                         if y[0] == "agg" and y[1] == TLT:
                             vs.add(y[2])
                 outc = vs == {"TxReceived", "TxSent", "TxReverted"}
+        # truth-table shape of the legacy filter: the four partial verdicts are conjoined, and an absent criterion is `true`
+        conj_ok = none_ok = False
+        for g in cls:
+            if not ({"id", "tx_slate_id"} <= fields_read(g, TLE)):
+                continue
+            flags = {"_%d" % l for l in range(1, len(g.locals)) if g.locals[l]["ty"] == "bool" and g.locals[l].get("u")}
+            try:
+                ps = dectree.PathEnum(g, db).paths(0)
+            except dectree.TooManyPaths as e:
+                run.error("C19.R4: %s" % e)
+                ps = []
+            conj_ok = bool(ps) and len(flags) >= 4
+            none_ok = bool(ps)
+            for p in ps:
+                v = [e[2] for e in p.events if e[0] == "set" and e[1] == "_0"]
+                if not v or v[-1] != "0":
+                    # a path that can answer `true`: none of the partial verdicts may have been false on it
+                    if any(e[0] == "atom" and e[1] in flags and e[2] is False for e in p.events):
+                        conj_ok = False
+                evs = [e for e in p.events if e[0] in ("lit", "set")]
+                for i, e in enumerate(evs):
+                    if e[0] == "lit" and e[2] == "None" and e[3]:
+                        nxt = [x for x in evs[i + 1:] if x[0] == "set" and x[1] in flags]
+                        if not nxt or nxt[0][2] != "1":
+                            none_ok = False
+        run.instance(R4, {"fn": "retrieve_txs", "obligation": "the partial verdicts (account, log id, slate id, outstanding) are conjoined"}, held=conj_ok)
+        if not conj_ok:
+            run.finding(Finding(R4, rt.id, "legacy look-up changed: an entry can pass although one of account / log id / slate id / outstanding does not match", site=rt.loc()))
+        run.instance(R4, {"fn": "retrieve_txs", "obligation": "an absent criterion (None) contributes `true`"}, held=none_ok)
+        if not none_ok:
+            run.finding(Finding(R4, rt.id, "legacy look-up changed: an absent criterion filters entries", site=rt.loc()))
         for held, what in ((idc, "entry id compared with tx_id"), (slc, "entry slate id compared with tx_slate_id"), (outc, "outstanding = !confirmed && type in {TxReceived, TxSent, TxReverted}")):
             run.instance(R4, {"fn": "retrieve_txs", "obligation": what}, held=held)
             if not held:
